@@ -53,8 +53,8 @@ LinkPool == {<< <<PW(1)>>, <<PW(2)>> >>, << <<>>, <<PW(1)>> >>, << <<PW(2)>>, <<
 TagPool == {<< <<PW(1)>>, <<PW(2)>> >>, << <<PW(2)>>, <<PW(1)>>, <<PW(1)>>, <<PW(3)>> >>,
             << <<PW(1)>>, <<"NILV">>, <<PW(2)>>, <<"SAFEV", PW(3)>> >>, << <<PW(3)>>, <<"n5">> >>}
 CodePool == {<< <<"n404">> >>, << <<"n5">> >>}
-ULeafKinds == {"uPtrLeaf", "uValLeaf", "uRegLeaf", "uMaybe"}
-UWrapKinds == {"uWrapU", "uWrapC", "uWrapUC", "uWrapFull", "uAnnotWrap", "uMaybe"}
+ULeafKinds == {"uPtrLeaf", "uValLeaf", "uValPtrLeaf", "uRegLeaf", "uMaybe"}
+UWrapKinds == {"uWrapU", "uWrapC", "uWrapUC", "uWrapFull", "uAnnotWrap", "uKeyWrap", "uMaybe"}
 
 PartsPool(sl) ==
   {<<Part("lit", s, 0)>> : s \in SH}
@@ -153,6 +153,7 @@ Step1(sl) ==
         \E i \in FirstFree(sl) : \E j \in NonNil(sl) \cup FirstFree(sl) : Take(Step(o, i, <<i, j>>, E, E, E, 0, E))
   \/ NilOps /\ \E o \in {"WithSecondaryError", "CombineErrors", "Join", "JoinPkg", "GoJoin"} \cap Ops :
         \E i \in NonNil(sl) : \E j \in FirstFree(sl) : Take(Step(o, i, <<i, j>>, E, E, E, 0, E))
+  \/ On("GoWrap2") /\ \E p \in Pairs(sl) : \E s \in SH : Take(Step("UMulti", p[1], <<p[1], p[2]>>, s, E, E, 0, E))
   \/ On("GoWrap2") /\ \E p \in Pairs(sl) : \E s \in {<<SP>>, <<SEP>>, <<NL>>} :
         Take(Step("GoWrap2", p[1], <<p[1], p[2]>>, s, E, E, 0, E))
 
@@ -230,7 +231,8 @@ InvC07 == \A i \in Live :
       \/ \E k \in 1..Len(VisNodes(v)) : Equiv(VisNodes(v)[k], hs[j], reg)
 
 \* C11: accessors survive a hop between knowing processes
-InvC11 == \A i \in Live : Acc(H1(slots[i])) = Acc(slots[i])
+\* (the Go types of the layers change in transfer: withStack becomes an opaque wrapper)
+InvC11 == \A i \in Live : [Acc(H1(slots[i])) EXCEPT !.hastype = {}] = [Acc(slots[i]) EXCEPT !.hastype = {}]
 
 \* C04: at a process knowing any subset of the families: same text and shape,
 \* re-encoding is the identity, and a later knowing process gets what it
